@@ -271,7 +271,22 @@ const _: (/* conversions */) = {
     }
     
     impl From<base::Node> for Node {
-        fn from(mut base: base::Node) -> Self {
+        fn from(base: base::Node) -> Self {
+            Node::finalize(base, false)
+        }
+    }
+
+    impl Node {
+        /// `opens_scope`: this node has fangs that its parent doesn't have.
+        /// Then requests reaching here must be caught here even when not found.
+        fn finalize(mut base: base::Node, opens_scope: bool) -> Self {
+            /* fangs of a node wrap everything under it: children inherit them as outer ones */
+            let n_fangs = base.fangses.len();
+            let inherit = |children: &mut Vec<base::Node>, fangses: &base::FangsList| {
+                for child in children {child.fangses.inherit(fangses)}
+            };
+            inherit(&mut base.children, &base.fangses);
+
             /* skip compression on edge runtimes */
             #[cfg(feature="__rt_native__")]
             /* compress: merge single-child static pattern and compress routing tree */
@@ -279,11 +294,15 @@ const _: (/* conversions */) = {
                && base.handler.is_none()
                && base.pattern.as_ref().is_none_or(|p| p.is_static())
                && base.children[0].pattern.as_ref().unwrap(/* not root */).is_static()
+               /* a compressed node has single `proc` and `catch`, so it must not cross a scope of fangs */
+               && !opens_scope
+               && base.children[0].fangses.len() == n_fangs
             {
                 let child = base.children.pop().unwrap(/* base.children.len() == 1 */);
                 base.children = child.children;
                 base.handler = child.handler;
-                base.fangses.append(child.fangses);
+                base.fangses = child.fangses;
+                inherit(&mut base.children, &base.fangses);
                 base.pattern = Some(match base.pattern {
                     None    => child.pattern.unwrap(/* not root */),
                     Some(p) => p.merge_statics(child.pattern.unwrap(/* not root */)).unwrap(/* both are Pattern::Static */)
@@ -310,7 +329,10 @@ const _: (/* conversions */) = {
 
             Node {
                 pattern:  base.pattern.map(Pattern::from).unwrap_or(Pattern::Static(b"")),
-                children: base.children.into_iter().map(Node::from).collect::<Vec<_>>().leak(),
+                children: base.children.into_iter().map(|child| {
+                    let opens_scope = child.fangses.len() != n_fangs;
+                    Node::finalize(child, opens_scope)
+                }).collect::<Vec<_>>().leak(),
 
                 proc,
                 catch,
